@@ -69,13 +69,16 @@ class NetworkXPropertyGraph(ABCPropertyGraph, NetworkXMixin):
         """
         if validate_json:
             self._validate_all_json_properties()
-        # check that all nodes and links have 'Class' property
-        for n in self.storage.get_graph(self.graph_id).nodes:
-            if self.storage.get_graph(self.graph_id).nodes[n].get(ABCPropertyGraph.PROP_CLASS, None) is None:
+        # check that all nodes and links have 'Class' property. The single store keeps all graphs
+        # together: look at the nodes and edges of this graph only
+        store = self.storage.get_graph(self.graph_id)
+        mine = {n for n in store.nodes if store.nodes[n].get(ABCPropertyGraph.GRAPH_ID, None) == self.graph_id}
+        for n in mine:
+            if store.nodes[n].get(ABCPropertyGraph.PROP_CLASS, None) is None:
                 raise PropertyGraphImportException(graph_id=self.graph_id,
                                                    msg="Some nodes are missing 'Class' property")
-        for e in self.storage.get_graph(self.graph_id).edges:
-            if self.storage.get_graph(self.graph_id).edges[e].get(ABCPropertyGraph.PROP_CLASS, None) is None:
+        for e in store.edges(mine):
+            if store.edges[e].get(ABCPropertyGraph.PROP_CLASS, None) is None:
                 raise PropertyGraphImportException(graph_id=self.graph_id,
                                                    msg="Some edges are missing 'Class' property")
 
